@@ -3,6 +3,7 @@ import SqiModel.Sponge
 import SqiModel.Drbg
 import SqiModel.Challenge
 import SqiGen.Keccak
+import SqiGen.KeccakParams
 /- driver ops for C20 (hashing / DRBG / challenge).  Byte strings travel as hex (`-` = empty), numbers as hex.
    `hash.*` ops run the hand model with the *generated* permutation and the extracted rate / domain constants;
    `spec.*` ops run the FIPS 202 / SP 800-90A specification (used as oracle by the violation search). -/
